@@ -1,5 +1,5 @@
 ID = "C11"
-LEVEL = "other"
+LEVEL = "proof"
 COQ_TARGETS = ["Props/Properties_C11.vo", "Extract/ExtractPromise.vo"]
 PROPS_FILES = ["Props/Properties_C11.v"]
 VARIANT = "fixed"
@@ -58,7 +58,7 @@ def violates(run, case, impl, model):
     # delivered twice, or a delivery goes elsewhere than the model's (exactly-once destination).
     return True
 
-LEVEL_TEXT = ("Proved for all op lists and all interleavings of the single-promise model: resolve_once, pipelined_exactly_once, client_idempotent, no_stuck, waiters_released, proxy_clients_resolved_and_released, result_read_alive; on the model with Join (joined chains, any number of promises): exactly-once count part, mutex discipline (ordered locking, mu free at rest), resolve_once per promise, PipelineCaller only before resolution. Refuted on earlier/seeded code variants: F11, resolve deadlock, result lifetime, Join nil table (F11c), seeded C11-3. Model tied to answer.go by synctest histories (sequenced, with Join, concurrent launch groups checked against the set of outcomes the model allows).")
-LEVEL_NOTE = "Level other: on the joined-chain model no_stuck, waiters, proxies and the second half of the destination property are not proved (they are for a single promise); no relation theorem between the two models. See docs/C11.md for what the chain proofs need."
+LEVEL_TEXT = ("Proved for all op lists and all interleavings. Single-promise model: resolve_once, pipelined_exactly_once, client_idempotent, no_stuck, waiters_released, proxy_clients_resolved_and_released, result_read_alive. Model with Join (joined chains, any number of promises): pipelined_exactly_once (count, caller only before resolution, destination), resolve_once per promise, mutex discipline and mu free at rest, forest invariant, no deadlock on the mutexes, no_stuck and waiters_released in the single-promise shape (neither Fulfill nor ReleaseClients waits forever for a proxy hook), proxy_clients_resolved_and_released (every proxy on a chain ending at a resolved promise has that resolution at its path; every proxy is in a table, in the loop of the ReleaseClients that took it, or released), client_idempotent (same proxy while the end promise is unchanged and unresolved), client-table reference conservation and per-chain release. Refuted: F11, resolve deadlock, result lifetime, F11c, seeded C11-3 and C11-r2-1, self-join and cyclic join. Model tied to answer.go by synctest histories (sequenced, with Join, launch groups checked against the explored outcome set).")
+LEVEL_NOTE = "Premises of the chain theorems (C11_join_premises_satisfiable shows they hold together): jv_close_joined, jv_alloc_table (and jv_refs_sum for the release accounting) = the code as it is, each switched-off variant is refuted and detected on the patched code; join_ordered = precondition of Promise.Join (a promise only joins promises of lower index; self-join and cyclic joins are refuted; all harness generators respect it). Partial: only the relation between the two models (C11_join_zero_joins_inert_partial: with zero Joins the Join-specific state is inert; no step-by-step simulation). On chains the 'same proxy' part of client_idempotent is stated for calls that ended at the same, still unresolved promise (across a Join the code itself returns the other promise's proxy; both resolve to the same capability). See docs/C11.md."
 TECHNIQUE = "Coq proof over an executable small-step model + extracted-model/implementation differential run under synctest"
 DESIGN_REF = "DESIGN.md section 6, C11"
